@@ -364,6 +364,11 @@ class Machine(ApproxOps, TruncOps, HeteroOps):
         return self._emit(dst, op, [f, x],
                           lambda: self.regs[f].evaluate_ln(self.regs[x], element_wise=element_wise))
 
+    def evaluate(self, f, x):
+        """evaluate(x): the function value itself (not its logarithm)"""
+        dst = self.new()
+        return self._emit(dst, "evaluate", [f, x], lambda: self.regs[f].evaluate(self.regs[x]))
+
     def multiply(self, u, f, update_full):
         dst = self.new()
         return self._emit(dst, "multiply", [u, f, int(update_full)],
